@@ -123,6 +123,20 @@ func init() {
 		},
 	})
 	register(&Property{
+		ID:        "C03",
+		Technique: "static analysis: SSA field-event typestate of the lazy-transpose triple, unique-owner analysis of access patterns, sibling comparison of per-width and per-build transpose kernels and of the two transposed-index computations, path rules on Transpose/UT",
+		Explain: "Decides: (T1) whoever gives an object a saved access pattern (old) also gives it transposeWith and AP; (T2) old and transposeWith are cleared together; (T4) Transpose recomputes the default strides of the current shape by data order and installs them after the move and discards the thunk, UT restores exactly the saved AP, calcStrides selects the routine by order; (T6) Dense.transposeIndex (in-place build) and TransposeIndex accumulate the same sum oldCoord[pattern[k]]*newStrides[k]; (K1w) the 1/2/4/8-byte transpose kernels are one algorithm, in both builds; (O8) SafeT/T(api)/Transpose(api)/Clone hand the copy its own access patterns (no alias of the source's shape/strides, so undoing or materialising one tensor cannot wipe the other); (B1) both transpose builds declare the same functions. " +
+			"Not decided: that the permutation arithmetic (UnsafePermute, cycle following, iterator order) is the right permutation; the composition law.",
+		Quick:    []string{"default", "inplacetranspose"},
+		Run: func(rc *rules.RC) {
+			rules.T12(rc)
+			rules.T4(rc)
+			rules.T6(rc)
+			rules.K1w(rc, func(stem string) bool { return strings.Contains(stem, "denseTranspose") }, 4)
+			rules.O8(rc)
+		},
+	})
+	register(&Property{
 		ID:        "C19",
 		Technique: "static analysis: interprocedural ownership analysis over go/ssa (origin tracing with fixpoint summaries returns-param / retains / writes / recycles), mod-set of the recycle function, unique-owner rule for pool-managed access patterns",
 		Explain: "A history-quantified property becomes per-site ownership invariants decided over every function: (O1,O2,O3) no exported function recycles, retains or mutates a caller's []int/Shape/[]Slice/[]bool argument, directly or through any chain of callees (summaries by fixpoint; documented sharing is a named exception table); (O6) ReturnTensor stores a zero value into every leaf field of Dense before pooling it; (O7) ReturnTensor inside the library receives only tensors created in that function, or a parameter under the not-the-reuse-tensor guard; (O8) an access pattern (whose shape/strides slices AP.zero and SetShape return to the ints pool) read out of one object is stored elsewhere only as a move or after Clone, no exported function returns such an alias, no local alias is zeroed into the pool; (T2) the lazy-transpose triple is cleared together. If no live object can reach a slice in the free list and no caller slice is kept, written or recycled, no operation history can corrupt through that channel. " +
